@@ -421,9 +421,57 @@ func (c *Ctx) Sub(a, b *Term) *Term {
 
 func (c *Ctx) Neg(a *Term) *Term { return c.Sub(c.Int(0), a) }
 
+// constFactor splits t into k * rest with a constant k (rest == nil when t is a constant itself)
+func (c *Ctx) constFactor(t *Term) (*big.Int, *Term) {
+	if t.isConst {
+		return t.cInt, nil
+	}
+	if t.op == "*" && len(t.args) == 2 {
+		if t.args[0].isConst {
+			return t.args[0].cInt, t.args[1]
+		}
+		if t.args[1].isConst {
+			return t.args[1].cInt, t.args[0]
+		}
+	}
+	return big.NewInt(1), t
+}
+
+// divisibleBy: is t syntactically a multiple of the positive constant d (a product with a constant factor d | k, or a
+// sum of such terms)?  Returns the quotient term.
+func (c *Ctx) divisibleBy(t *Term, d *big.Int) (*Term, bool) {
+	if t.op == "+" && len(t.args) == 2 {
+		q0, ok0 := c.divisibleBy(t.args[0], d)
+		q1, ok1 := c.divisibleBy(t.args[1], d)
+		if ok0 && ok1 {
+			return c.Add(q0, q1), true
+		}
+		return nil, false
+	}
+	k, rest := c.constFactor(t)
+	if new(big.Int).Rem(k, d).Sign() != 0 {
+		return nil, false
+	}
+	q := new(big.Int).Quo(k, d)
+	if rest == nil {
+		return c.IntBig(q), true
+	}
+	return c.Mul(c.IntBig(q), rest), true
+}
+
 func (c *Ctx) Mul(a, b *Term) *Term {
 	if a.isConst && b.isConst {
 		return c.IntBig(new(big.Int).Mul(a.cInt, b.cInt))
+	}
+	// keep constant factors together: (k1*x)*k2 -> (k1*k2)*x, so that later divisions by constants can cancel
+	if (a.isConst && b.op == "*") || (b.isConst && a.op == "*") {
+		k, x := a, b
+		if b.isConst {
+			k, x = b, a
+		}
+		if kx, rest := c.constFactor(x); rest != nil && rest != x {
+			return c.Mul(c.IntBig(new(big.Int).Mul(k.cInt, kx)), rest)
+		}
 	}
 	if a.isConst {
 		if a.cInt.Sign() == 0 {
@@ -462,6 +510,11 @@ func (c *Ctx) DivE(a, b *Term) *Term {
 	if b.isConst && b.cInt.Cmp(big.NewInt(1)) == 0 {
 		return a
 	}
+	if b.isConst && b.cInt.Sign() > 0 {
+		if q, ok := c.divisibleBy(a, b.cInt); ok {
+			return q
+		}
+	}
 	// exact division: (x*b) div b == x for b != 0
 	if a.op == "*" && !b.isConst && (b.lo != nil && b.lo.Sign() > 0 || b.hi != nil && b.hi.Sign() < 0) {
 		if a.args[1] == b {
@@ -488,6 +541,11 @@ func (c *Ctx) ModE(a, b *Term) *Term {
 	if a.isConst && b.isConst && b.cInt.Sign() != 0 {
 		_, m := new(big.Int).DivMod(a.cInt, b.cInt, new(big.Int))
 		return c.IntBig(m)
+	}
+	if b.isConst && b.cInt.Sign() > 0 {
+		if _, ok := c.divisibleBy(a, b.cInt); ok {
+			return c.Int(0)
+		}
 	}
 	// a already in [0,b) for constant b
 	if b.isConst && b.cInt.Sign() > 0 && a.lo != nil && a.hi != nil && a.lo.Sign() >= 0 && a.hi.Cmp(b.cInt) < 0 {
@@ -682,6 +740,17 @@ func (c *Ctx) collectDefs(roots []*Term, out *strings.Builder) {
 		}
 		for _, a := range t.args {
 			visit(a)
+		}
+		if (t.op == "div" || t.op == "mod") && len(t.args) == 2 && t.args[1].isConst && t.args[1].cInt.Sign() > 0 {
+			// division by a positive constant as a linear quotient/remainder definition: the incremental core of z3
+			// handles this far better than the div/mod operators (one-shot fallback scripts keep the operators)
+			a, cst := t.args[0].ref(), smtInt(t.args[1].cInt)
+			q, r := fmt.Sprintf("t%d", t.id), fmt.Sprintf("t%d_r", t.id)
+			if t.op == "mod" {
+				q, r = fmt.Sprintf("t%d_q", t.id), fmt.Sprintf("t%d", t.id)
+			}
+			fmt.Fprintf(out, "(declare-const %s Int)\n(declare-const %s Int)\n(assert (= %s (+ (* %s %s) %s)))\n(assert (<= 0 %s))\n(assert (< %s %s))\n", q, r, a, cst, q, r, r, r, cst)
+			return
 		}
 		fmt.Fprintf(out, "(define-fun t%d () %s %s)\n", t.id, t.sort, t.body())
 	}
